@@ -16,6 +16,13 @@ CHECKS = {
         note=TRUST + "; pigeonhole (injective on range(n) => bijective) not re-proved; callee treated as a function of its arguments",
         technique="contract-based deductive verification (AST symbolic execution -> z3 VCs, loop invariants) + exhaustive ground evaluation of tables",
     ),
+    "C19": dict(
+        category="proof",
+        text="write_input_base, the Gaussian/ORCA write_input functions and both default_atom_line functions are verified at field level for all molecules (any number of atoms), all charge/spin settings and user overrides: one geometry line per atom in order produced by the atom-line callback of that atom, element symbol and coordinates divided by the CODATA angstrom factor, multiplicity = |round(spinpol)|+1, charge rounded to the nearest integer, documented defaults and run-type tables, user/keyword fields last. Text rendering (str.format, f-strings) is trusted.",
+        design_ref="DESIGN.md 6/C19",
+        note=TRUST + "; str.format / str.join trusted; error classes of api.write_input are C08",
+        technique="contract-based deductive verification (AST symbolic execution -> z3 VCs, comprehension over a symbolic atom count) + bounded seeded molecules through the real API",
+    ),
     "C20": dict(
         category="proof",
         text="set_four_index_element, volume, strtobool, check_dm and derive_naturals are verified against contracts taken from the statement (array theory / nonlinear real arithmetic / finite maps in z3); the matrix-algebra consequence of the assumed scipy.linalg.eigh contract (reconstruction of the density matrix, orthonormality) is a Lean 4 + Mathlib lemma; the floating-point side is covered only by a bounded stand-in on random matrices, labelled bounded.",
